@@ -126,13 +126,14 @@ theorem retryAfterNow_step (prb : Probe) (svr : Server) (tn : Int) (s : AbsState
        retryAfterNow.probeRetryUpdate prb svr) := rfl
 
 /-- the state in which the probe's final `Update` runs holds, under the probe's key, a record that is the one the probe's
-`Get` returned or a newer one — given only `Mono` from the `Get`'s state -/
-theorem latest_of_mono {s0 s2 : AbsState} (hk0 : Keyed s0) (hk2 : Keyed s2) (hm : Mono s0 s2) (a : Addr) (r0 : Server) (u0 : Int)
+`Get` returned or a newer one — given only `RowLe` under that key from the `Get`'s state -/
+theorem latest_of_mono {s0 s2 : AbsState} (hk0 : Keyed s0) (hk2 : Keyed s2) (a : Addr)
+    (hm : RowLe (s0.servers[a.key]?) (s2.servers[a.key]?)) (r0 : Server) (u0 : Int)
     (hrow0 : s0.getRow a = some ⟨r0, u0⟩) :
     ∃ (w : Server) (uw : Int), s2.getRow a = some ⟨w, uw⟩ ∧ (w.version > r0.version ∨ w = r0) ∧
       r0.addr.key = a.key ∧ w.addr.key = a.key := by
   have h0 : s0.servers[a.key]? = some ⟨r0, u0⟩ := hrow0
-  obtain ⟨row', hrow', hrel⟩ := hm a.key ⟨r0, u0⟩ h0
+  obtain ⟨row', hrow', hrel⟩ := hm ⟨r0, u0⟩ h0
   have hk0' : r0.addr.key = a.key := hk0 a.key ⟨r0, u0⟩ h0
   have hk2' : row'.svr.addr.key = a.key := hk2 a.key row' hrow'
   have hrel' : row'.svr.version > r0.version ∨ row'.svr = r0 := by
@@ -147,7 +148,8 @@ theorem getRow_key {s : AbsState} {a b : Addr} (h : a.key = b.key) : s.getRow a 
 /-- **retry, any activity of the others after each of the probe's calls.**  The probe's `Get` returned `r0` (state `s0`,
 clock `t0`); the others act (`F0`); the probe reads the clock (`tn`); the others act (`F1`); the probe re-queues itself;
 the others act (`F2`); the probe's `Update` commits at clock `tu`.  If the state `s2` in which that `Update` runs is `Keyed`
-and `Mono` from `s0` (every row still there, unchanged or newer — what every activity without `Remove` guarantees), then
+and the row under the probe's key is `RowLe` from `s0` (still there, unchanged or newer — what every activity without
+`Remove` guarantees, `VerMono.Mono`), then
 it holds some record `w` under the probe's key, `w` is `r0` or newer, and the final state is `s2` with `handleRetry goal w`
 — the retry transformation of the **latest** record — stored one version up; everything else, including whatever the
 others did to `w`, to other rows, to the queue and the instances, is as they left it.  The re-queued probe is ready
@@ -156,7 +158,8 @@ theorem probe_retry_slots (s0 : AbsState) (t0 tn te tu : Int) (prb : Probe) (r0 
     (F0 F1 F2 : AbsState → AbsState)
     (hk0 : Keyed s0) (hrow0 : s0.getRow prb.addr = some ⟨r0, u0⟩) (h : prb.retries < prb.maxRetries)
     (hk2 : Keyed (F2 (queued (F1 (F0 s0)) { prb with retries := prb.retries + 1 } (tn + second * expFloor (prb.retries + 1)))))
-    (hm : Mono s0 (F2 (queued (F1 (F0 s0)) { prb with retries := prb.retries + 1 } (tn + second * expFloor (prb.retries + 1))))) :
+    (hm : RowLe (s0.servers[prb.addr.key]?)
+      ((F2 (queued (F1 (F0 s0)) { prb with retries := prb.retries + 1 } (tn + second * expFloor (prb.retries + 1)))).servers[prb.addr.key]?)) :
     ∃ (w : Server) (uw : Int),
       (F2 (queued (F1 (F0 s0)) { prb with retries := prb.retries + 1 } (tn + second * expFloor (prb.retries + 1)))).getRow prb.addr
         = some ⟨w, uw⟩ ∧
@@ -164,7 +167,7 @@ theorem probe_retry_slots (s0 : AbsState) (t0 tn te tu : Int) (prb : Probe) (r0 
       raceRunL (probe prb none) [(1, t0, F0), (1, tn, F1), (1, te, F2)] tu s0 =
         ({ (F2 (queued (F1 (F0 s0)) { prb with retries := prb.retries + 1 } (tn + second * expFloor (prb.retries + 1)))) with
             servers := (F2 (queued (F1 (F0 s0)) { prb with retries := prb.retries + 1 } (tn + second * expFloor (prb.retries + 1)))).servers.insert prb.addr.key ⟨{ handleRetry prb.goal w with version := w.version + 1 }, tu⟩ }, .retried) := by
-  obtain ⟨w, uw, hw, hmono, hkr, hkw⟩ := latest_of_mono hk0 hk2 hm prb.addr r0 u0 hrow0
+  obtain ⟨w, uw, hw, hmono, hkr, hkw⟩ := latest_of_mono hk0 hk2 prb.addr hm r0 u0 hrow0
   refine ⟨w, uw, hw, hmono, ?_⟩
   simp only [raceRunL]
   rw [probe_step_get s0 t0 prb none r0 u0 hrow0]
@@ -180,11 +183,11 @@ theorem probe_retry_slots (s0 : AbsState) (t0 tn te tu : Int) (prb : Probe) (r0 
 /-- **final failure** (`retries ≥ max`): `Get`, activity of the others, `Update` at clock `tu` -/
 theorem probe_failure_slots (s0 : AbsState) (t0 tu : Int) (prb : Probe) (r0 : Server) (u0 : Int) (F0 : AbsState → AbsState)
     (hk0 : Keyed s0) (hrow0 : s0.getRow prb.addr = some ⟨r0, u0⟩) (h : prb.retries ≥ prb.maxRetries)
-    (hk2 : Keyed (F0 s0)) (hm : Mono s0 (F0 s0)) :
+    (hk2 : Keyed (F0 s0)) (hm : RowLe (s0.servers[prb.addr.key]?) ((F0 s0).servers[prb.addr.key]?)) :
     ∃ (w : Server) (uw : Int), (F0 s0).getRow prb.addr = some ⟨w, uw⟩ ∧ (w.version > r0.version ∨ w = r0) ∧
       raceRunL (probe prb none) [(1, t0, F0)] tu s0 =
         ({ (F0 s0) with servers := (F0 s0).servers.insert prb.addr.key ⟨{ handleFailure prb.goal w with version := w.version + 1 }, tu⟩ }, .outOfRetries) := by
-  obtain ⟨w, uw, hw, hmono, hkr, hkw⟩ := latest_of_mono hk0 hk2 hm prb.addr r0 u0 hrow0
+  obtain ⟨w, uw, hw, hmono, hkr, hkw⟩ := latest_of_mono hk0 hk2 prb.addr hm r0 u0 hrow0
   refine ⟨w, uw, hw, hmono, ?_⟩
   simp only [raceRunL]
   rw [probe_step_get s0 t0 prb none r0 u0 hrow0]
@@ -202,12 +205,12 @@ produced it: `tu` (the conflict callback, at commit) if `w` is newer than `r0`, 
 theorem probe_success_slots (s0 : AbsState) (t0 tn tu : Int) (prb : Probe) (res : ProbeResult) (r0 : Server) (u0 : Int)
     (F0 F1 : AbsState → AbsState)
     (hk0 : Keyed s0) (hrow0 : s0.getRow prb.addr = some ⟨r0, u0⟩)
-    (hk2 : Keyed (F1 (F0 s0))) (hm : Mono s0 (F1 (F0 s0))) :
+    (hk2 : Keyed (F1 (F0 s0))) (hm : RowLe (s0.servers[prb.addr.key]?) ((F1 (F0 s0)).servers[prb.addr.key]?)) :
     ∃ (w : Server) (uw : Int), (F1 (F0 s0)).getRow prb.addr = some ⟨w, uw⟩ ∧ (w.version > r0.version ∨ w = r0) ∧
       raceRunL (probe prb (some res)) [(1, t0, F0), (1, tn, F1)] tu s0 =
         ({ (F1 (F0 s0)) with servers := (F1 (F0 s0)).servers.insert prb.addr.key ⟨{ handleSuccess prb.goal res (if w.version > r0.version then tu else tn) w with version := w.version + 1 }, tu⟩ },
          .success) := by
-  obtain ⟨w, uw, hw, hmono, hkr, hkw⟩ := latest_of_mono hk0 hk2 hm prb.addr r0 u0 hrow0
+  obtain ⟨w, uw, hw, hmono, hkr, hkw⟩ := latest_of_mono hk0 hk2 prb.addr hm r0 u0 hrow0
   refine ⟨w, uw, hw, hmono, ?_⟩
   simp only [raceRunL]
   rw [probe_step_get s0 t0 prb (some res) r0 u0 hrow0]
@@ -215,5 +218,47 @@ theorem probe_success_slots (s0 : AbsState) (t0 tn tu : Int) (prb : Probe) (res 
   rw [update_eq2_key _ tu (handleSuccess prb.goal res tn) (handleSuccess prb.goal res tu) r0 w uw
     (handleSuccess_keeps _ _ _) (handleSuccess_keeps _ _ _) (by rw [getRow_key hkr]; exact hw) (hkw.trans hkr.symm) hmono, hkr]
   by_cases hv : w.version > r0.version <;> simp only [hv, if_true, if_false] <;> rfl
+
+end Swat4.C13Run
+
+namespace Swat4.C13Run
+open Swat4 Swat4.UC Std Swat4.VerMono Swat4.RowInv
+
+/-! ## what "the others" may be -/
+
+/-- an activity of other components, as a function on the store: it keeps rows under their keys and keeps every row,
+unchanged or with a strictly larger version.  Every call that is not a `Remove`, every program without `Remove`, every
+`USys` run of such clients, and every composition of these is one. -/
+def Others (F : AbsState → AbsState) : Prop := ∀ s, Keyed s → Keyed (F s) ∧ Mono s (F s)
+
+theorem Others.id : Others id := fun s hk => ⟨hk, Mono.refl s⟩
+
+theorem Others.comp {F G : AbsState → AbsState} (hF : Others F) (hG : Others G) : Others (fun s => G (F s)) :=
+  fun s hk => ⟨(hG _ (hF s hk).1).1, (hF s hk).2.trans (hG _ (hF s hk).1).2⟩
+
+/-- one call, at any clock value -/
+theorem others_call {β : Type} (c : Call β) (hc : CallStable c) (hn : NoRemove c) (t : Int) : Others fun s => (c.exec s t).1 :=
+  fun s hk => ⟨exec_keyed c s t hk, exec_mono c hc hn s hk t⟩
+
+/-- one program run to completion, at any clock value -/
+theorem others_run {α : Type} (p : Prog α) (hp : ProgStable p) (t : Int) : Others fun s => (p.run s t).1 :=
+  fun s hk => run_mono hp s t hk
+
+/-- any interleaving of any number of clients (calls, crashes, faults, ticks) in the system model -/
+theorem others_usys (A : Nat → Prop) (u : USys) (es : List UEv) (hes : ∀ e ∈ es, USysInd.EvOK A e)
+    (hcl : ∀ (j : Nat) (c : UClient), A j → u.clients[j]? = some c → ProgStable c.prog) :
+    Others fun s => (({ u with abs := s } : USys).run es).abs :=
+  fun s hk => let h := usys_run_mono A { u with abs := s } es hes hk hcl; ⟨h.1, h.2.1⟩
+
+theorem keyed_queued {s : AbsState} (h : Keyed s) (p : Probe) (r : Int) : Keyed (queued s p r) :=
+  keyed_of_servers (s := s) rfl h
+
+theorem raceRunL_split2 {α : Type} (t : Int) (F : AbsState → AbsState) (now : Int) (p : Prog α) (s : AbsState) :
+    raceRunL p [(2, t, F)] now s = raceRunL p [(1, t, id), (1, t, F)] now s :=
+  (raceRunL_merge 1 1 t F [] now p s).symm
+
+theorem raceRunL_split3 {α : Type} (t : Int) (F : AbsState → AbsState) (now : Int) (p : Prog α) (s : AbsState) :
+    raceRunL p [(3, t, F)] now s = raceRunL p [(1, t, id), (1, t, id), (1, t, F)] now s := by
+  simp only [raceRunL, id, show (3 : Nat) = 1 + (1 + 1) from rfl, stepN_add]
 
 end Swat4.C13Run
